@@ -518,6 +518,7 @@ func CheckMW(c MWCase) *kit.Violation {
 	}
 	doc := c.DocPath()
 	pageChecked := false
+	firstPage := ""
 	for _, q := range c.Reqs {
 		*next = recorder{}
 		req := newRequest(q)
@@ -555,9 +556,13 @@ func CheckMW(c MWCase) *kit.Violation {
 			}
 			if !pageChecked {
 				pageChecked = true
+				firstPage = body
 				if v := checkPage(body, slots(c.Kind, c.Template, c.Title, c.SpecURL, c.URLs), c.values()); v != nil {
 					return kit.Failf("%s\n%s\npage: %s", v.Msg, c.brief(), clip(body))
 				}
+			} else if body != firstPage {
+				// every request for the document path gets the page, not only the first one (r7)
+				return kit.Failf("PAGE-DIFFERS %s: this request for the document path got %d bytes %q, the first one got the page of %d bytes\n%s", what, len(body), clip(body), len(firstPage), c.brief())
 			}
 			continue
 		}
